@@ -96,9 +96,77 @@ def xh_multistage_domain(n: int, ram: int, disk: int, traj: bool) -> bool:
         return (not valid) and emitted == 0
 
 
+def _reset_memos():
+    """Process-global memo tables would carry values from one explored path into the next."""
+    from checkpoint_schedules import mixed, multistage
+    from . import oracles
+    for fn in (mixed.optimal_steps_mixed, mixed.mixed_step_memoization, multistage.optimal_extra_steps):
+        for cell in fn.__closure__ or ():
+            if isinstance(cell.cell_contents, dict):
+                cell.cell_contents.clear()
+    oracles._M.clear()
+    oracles._T.clear()
+
+
+def _forward_steps(sched):
+    total = 0
+    for a in sched:
+        if isinstance(a, Forward):
+            total += a.n1 - a.n0
+        if isinstance(a, EndReverse):
+            break
+    return total
+
+
+def xh_multistage_steps(n: int, ram: int, disk: int, traj: bool) -> bool:
+    """
+    pre: 1 <= n <= 9
+    pre: 0 <= ram <= 3
+    pre: 0 <= disk <= 3
+    pre: n == 1 or ram + disk >= 1
+    post: _
+    """
+    s = MultistageCheckpointSchedule(n, ram, disk, trajectory="maximum" if traj else "revolve")
+    exp = n + E_bin(n, min(ram + disk, n - 1)) if n > 1 else 1
+    return _forward_steps(s) == exp
+
+
+def xh_mixed_steps(n: int, s: int, ram: bool) -> bool:
+    """
+    pre: 1 <= n <= 8
+    pre: 1 <= s <= 4
+    post: _
+    """
+    from checkpoint_schedules.mixed import MixedCheckpointSchedule
+    from .oracles import E_mix
+    _reset_memos()
+    sch = MixedCheckpointSchedule(n, s, storage=StorageType.RAM if ram else StorageType.DISK)
+    exp = E_mix(n, min(s, n - 1)) if n > 1 else 1
+    return _forward_steps(sch) == exp
+
+
+def xh_twolevel_forward(period: int, b: int, k: int) -> bool:
+    """
+    pre: period >= 1
+    pre: b >= 0
+    pre: 1 <= k <= 6
+    post: _
+    """
+    from checkpoint_schedules.twolevel_binomial import TwoLevelCheckpointSchedule
+    s = TwoLevelCheckpointSchedule(period, b, binomial_storage=StorageType.RAM)
+    for j in range(k):
+        a = next(s)
+        if not (isinstance(a, Forward) and a.args == (j * period, (j + 1) * period, True, False, StorageType.DISK)):
+            return False
+        if s.n != (j + 1) * period or s.max_n is not None or s.r != 0:
+            return False
+    return True
+
+
 TARGETS = {
-    "C05": ["xh_nadv"],
-    "C13": ["xh_nadv"],
+    "C05": ["xh_nadv", "xh_multistage_steps"],
+    "C06": ["xh_mixed_steps"],
+    "C13": ["xh_nadv", "xh_twolevel_forward"],
     "C10": ["xh_finalize"],
     "C17": ["xh_multistage_domain"],
     "C18": ["xh_contains", "xh_eq"],
